@@ -9,7 +9,7 @@ Low(n) == IF n = "A" THEN "a" ELSE n
 Base == [k |-> "q", ct |-> "", name |-> "", lname |-> "", hasname |-> TRUE, nameok |-> TRUE,
          type |-> "text", count |-> "none", tl |-> FALSE, lh |-> TRUE, media |-> FALSE, list |-> "",
          listkind |-> "", other |-> FALSE, filt |-> FALSE, hascalc |-> FALSE, dyn |-> "none",
-         trig |-> FALSE, cattrs |-> <<>>, tlapp |-> "field-list", warns |-> <<>>]
+         trig |-> FALSE, refs |-> <<>>, cattrs |-> <<>>, tlapp |-> "field-list", warns |-> <<>>]
 With(f) == f @@ Base
 
 Named(n) == {
